@@ -342,6 +342,11 @@ def concatF : Fn
   | [a, b] => some (.str (a.display ++ b.display) false)
   | _ => Option.none
 
+/-- `+` on two strings (anything else involving a string is an error) -/
+def addF : Fn
+  | [.str a _, .str b _] => some (.str (a ++ b) false)
+  | _ => Option.none
+
 /-- `*` on a string -/
 def repeatF (n : Nat) : Fn
   | [.str s _] => some (.str ((List.replicate n s).flatten) false)
@@ -351,6 +356,8 @@ def repeatF (n : Nat) : Fn
 def sliceF (a b : Nat) : Fn
   | [.str s _] => some (.str ((s.drop a).take (b - a)) false)
   | [.seq xs] => some (.seq ((xs.drop a).take (b - a)))
+  | [.undef] => some (.seq [])
+  | [.none] => some (.seq [])
   | _ => Option.none
 
 /-- `v[k]`, `v|attr(k)`, loop item `k`: element of a sequence, or a character of a string -/
@@ -363,6 +370,7 @@ def elemF (k : Nat) : Fn
 def charsF : Fn
   | [.str s _] => some (.seq (s.map fun c => .str [c] false))
   | [.seq xs] => some (.seq xs)
+  | [.undef] => some (.seq [])
   | _ => Option.none
 
 /-- `|safe` (also `Value::from_safe_string` done by the host) — *excluded from the fragment* -/
@@ -388,12 +396,14 @@ def normalF (g : List V → TStr) : Fn := fun args => some (.str (g args) false)
 def reverseF : Fn
   | [.str s safe] => some (.str s.reverse safe)
   | [.seq xs] => some (.seq xs.reverse)
+  | [.undef] => some .undef
+  | [.none] => some .none
   | _ => Option.none
 
-/-- filters returning pieces of a string that inherit its bit: `split`, `lines` -/
+/-- filters returning pieces of a string that inherit its bit: `split`, `lines` (`Arc<str>::try_from`
+    accepts strings only) -/
 def piecesF (g : TStr → List TStr) : Fn
   | .str s safe :: _ => some (.seq ((g s).map fun p => .str p safe))
-  | v :: _ => some (.seq ((g v.display).map fun p => .str p false))
   | _ => Option.none
 
 /-- `first` -/
@@ -530,12 +540,16 @@ def parseSpec (s : TStr) : Option (Spec × TStr) :=
     else Option.none
   | [] => Option.none
 
+/-- `str::len`: UTF-8 bytes -/
+def utf8Len (t : TStr) : Nat := (t.map (fun ch => ch.c.utf8Size)).sum
+
+/-- `apply_padding`: the current width is measured in bytes -/
 def pad (sp : Spec) (t : TStr) : TStr :=
-  if sp.left then t ++ spaces (sp.width - t.length) else spaces (sp.width - t.length) ++ t
+  if sp.left then t ++ spaces (sp.width - utf8Len t) else spaces (sp.width - utf8Len t) ++ t
 
 /-- `FormatSpec::format_str` for `%s` -/
 def fmtStr (sp : Spec) (t : TStr) : Option TStr :=
-  if sp.ty == 's' then
+  if sp.ty == 's' || sp.ty == 'c' then
     some (pad sp (match sp.prec with | some p => t.take p | Option.none => t))
   else Option.none
 
@@ -589,7 +603,14 @@ def formatF (m : Mode) : Fn
         else some (.str (escapeWrite m v) false)
       (printfGo tr (f.length + 1) f args).map (fun r => .str r true)
     else
-      let tr (v : V) (ty : Char) : Option V := if ty == 'c' then Option.none else some v
+      -- `%c` of an integer is the character with that code point (unmarked result only)
+      let tr (v : V) (ty : Char) : Option V :=
+        if ty == 'c' then
+          match v with
+          | .int n => some (.str [⟨Char.ofNat n.toNat, .data⟩] false)
+          | .str [ch] _ => some (.str [ch] false)
+          | _ => Option.none
+        else some v
       (printfGo tr (f.length + 1) f args).map (fun r => .str r false)
   | _ => Option.none
 
@@ -661,6 +682,7 @@ belongs to the safe-marking-free fragment of the property (`safe` and `tojson` d
 def lookupBase (name : String) (m : Mode) (ps : List Nat) : Option (Fn × Bool) :=
   match name with
   | "concat" => some (concatF, true)
+  | "add" => some (addF, true)
   | "repeat" => some (repeatF (ps.headD 0), true)
   | "slice" => some (sliceF (ps.headD 0) (ps.getD 1 0), true)
   | "elem" => some (elemF (ps.headD 0), true)
